@@ -58,7 +58,7 @@ def build(p: Dict[str, Any]) -> Dict[str, Any]:
         # lib/imp.yaml is reached twice, through differently spelled paths (a diamond): it must be read once
         # ... and once more, in the middle of the list, spelled differently: the imports after it must still resolve
         "imports": ["lib/imp.yaml", "lib/extra.yaml", "./lib/imp.yaml", "lib/zeta/indep.yaml", "lib/../lib/extra.yaml", "alpha.yaml"],
-        "constants": {"K2": "K * 2", "BIG": "K * 1000 + 7", "HALF": "K / 2", "INV": "1 / K", "SPAN": "(K2 + 1) / 2",
+        "constants": {"K2": "K * 2", "BIG": "K * 1000 + 7", "HALF": "K / 2", "INV": "1 / K", "SPAN": "(K2 + 1) / 2", "THIRD": "K / 3", "SEVENTH": "(K2 + 1) / 7",
                       "CONSTANT_WITH_A_NAME_THAT_GOES_PAST_COLUMN_FORTY_EIGHT": 77,
                       **{f"W{i}": i + 1 for i in range(12)}, "WIDE": " + ".join(f"W{i}" for i in range(12))},
         "string_constants": {"GREETING": "hello world"},
@@ -282,7 +282,7 @@ def compare_language(res: Dict[str, Any], exp: dict) -> List[Tuple[str, str]]:
         want = num / den
         def near(x):
             try:
-                return abs(float(x) - want) < 1e-12
+                return float(x) == want        # every output prints the shortest text that reads back as the same double
             except (TypeError, ValueError):
                 return False
         if not near(psig["constants"].get(n)):
